@@ -232,6 +232,10 @@ func (x *Exec) verify(fn *ssa.Function, ct *Contract, rep *FuncReport) {
 		// a function-typed parameter can be given a contract: field:<function key>#<parameter>
 		x.tagOrigin(v, pv.Type(), funcKey(fn)+"#"+pv.Name())
 		fr.env[pv] = v
+		if x.entryParams == nil {
+			x.entryParams = map[string]Value{}
+		}
+		x.entryParams[pv.Name()] = v
 	}
 	for _, fvv := range fn.FreeVars {
 		// captured variable: pointer to a cell holding a symbolic value
